@@ -114,21 +114,14 @@ def threshold(ctx):
     ok = len(dc) == 1 and pm and tuple(dc[0].args) == (P("M_nnps"), pm[0].result, const(1) - pm[0].result)
     ctx.ob("PARTITION", site, "the second group is the exact complement of the first (v2' = 1 - v1')", bool(ok),
            "every pooled point must be re-assigned to exactly one group: %s" % (q.short(dc[0].args[2], 100) if dc else ""), dc[0] if dc else None)
-    lp = list(tr.loops.values())
-    it = lp[0]["iter"].single_atom() if lp else None
-    ctx.ob("FRM", site, "sampling_times repetitions", it is not None and it[0] == "call" and it[1] == "range" and tuple(it[2]) == (P("sampling_times"),), "")
     ft = [e for e in tr.calls() if e.callee == ("lib", "scipy.stats.norm.fit")]
     ra = tr.retval.single_atom() if tr.retval is not None else None
     ok = len(ft) == 1 and ra is not None and ra[0] == "call" and ra[1] == "scipy.stats.norm.ppf" and T.same(ra[2][0], const(1) - P("alpha")) and \
         tuple(ra[2][1:]) == (q.sub(ft[0].result, 0), q.sub(ft[0].result, 1))
     ctx.ob("POL", site, "threshold = (1 - alpha) quantile of the normal fitted to the permutation distances", ok, q.short(tr.retval, 160))
-    lname = None
-    if ft and ft[0].args:
-        fa = ft[0].args[0].single_atom()
-        if fa is not None and fa[0] == "loopvar" and fa[2].startswith("$"):
-            lname = fa[2][1:]
-    ap = [e for e in tr.of("localmut") if e.name == lname and e.name is not None and e.how == "method:append"]
-    ok = len(ap) == 1 and dc and _is_ret_of(tr, dc[0], ap[0].value.single_atom()[1][0])
+    col = q.collected(tr, ft[0].args[0]) if ft and ft[0].args else None
+    ctx.ob("FRM", site, "sampling_times repetitions", col is not None and col[1] == P("sampling_times"), q.short(col[1], 60) if col else "the fitted sample is not one value per repetition")
+    ok = col is not None and dc and _is_ret_of(tr, dc[0], col[0])
     ctx.ob("FRM", site, "every permutation distance enters the fit", bool(ok), "")
 
 
@@ -145,7 +138,7 @@ def update(ctx):
     ctx.ob("FRM", site, "partition built from (reference batch, test batch) in that order", ok, "", bd[0] if bd else None)
     new = [e for e in tr.calls() if e.callee == ("new", NSP)]
     ctx.ob("FWD", site, "partitioner uses k_nn neighbours", len(new) == 1 and new[0].args == (A("k_nn"),), "")
-    dc = [e for e in q.find_calls(tr, NSP + ".compute_nnps_distance") if e.func.qualname == site]
+    dc = [e for e in q.find_calls(tr, NSP + ".compute_nnps_distance") if q.within(e, site, ("_compute_drift_threshold",))]
     th = q.find_calls(tr, "NNDVI._compute_drift_threshold")
     def attr_of(t):
         a = t.single_atom()
